@@ -31,6 +31,12 @@ _UNITS = []
 _REPO = None
 
 
+def _worker_init():
+    """(pool workers are single-threaded: the cyclic collector, switched off in the parent - see vf/run.py - is safe and wanted here)"""
+    import gc
+    gc.enable()
+
+
 def _explore_worker(i):
     """Explore one unit in a worker process; return a picklable summary (SMT-LIB strings)."""
     from pyvc import verify
@@ -64,7 +70,7 @@ def _explore_worker(i):
     # vacuity canary on the quantifier-free projection of each path condition (decidable, fast)
     can = [verify.smt2_of([h for h in pc if not _has_quant(h)], z3.BoolVal(False)) for pc, ended, prefix in r.canary if pc]
     return {'i': i, 'paths': r.paths, 'exc_paths': r.exc_paths, 'undecided': r.undecided_reason, 'gen_s': r.gen_s,
-            'obls': obls, 'canary': can, 'loopsig': getattr(r, 'loopsig', '')}
+            'obls': obls, 'canary': can, 'loopsig': getattr(r, 'loopsig', ''), 'auto_inlined': list(getattr(r, 'auto_inlined', []) or [])}
 
 
 def _collect(it, limit, what):
@@ -206,7 +212,7 @@ class Report:
         procs = min(16, os.cpu_count() or 4)
         _UNITS, _REPO = units, self.repo
         summaries = []
-        with mp.get_context('fork').Pool(procs) as pool:
+        with mp.get_context('fork').Pool(procs, initializer=_worker_init) as pool:
             if units:
                 summaries = list(_collect(pool.imap(_explore_worker, range(len(units)), chunksize=1), EXPLORE_LIMIT + 120, 'exploration'))
             jobs = []
@@ -225,7 +231,8 @@ class Report:
                     self.undecided.append((u.name, s['undecided']))
                 self.loopsigs[u.name] = s.get('loopsig', '')
                 self.units_info.append({'unit': u.name, 'function': u.qualname, 'file': u.path, 'paths': s['paths'], 'raising_paths': s['exc_paths'],
-                                        'obligations': len(s['obls']), 'undecided': s['undecided'], 'gen_s': round(s['gen_s'], 2)})
+                                        'obligations': len(s['obls']), 'undecided': s['undecided'], 'gen_s': round(s['gen_s'], 2),
+                                        'helpers_rebuilt_on_demand': s.get('auto_inlined', [])})
                 for o in s['obls']:
                     base = '%s::%s' % (u.name, o['name'])
                     n = counts.get(base, 0)
@@ -243,6 +250,8 @@ class Report:
                 uid = 'lemma::%s' % name
                 meta[uid] = {'unit': None, 'base': uid, 'uid': uid, 'kind': 'lemma', 'note': '', 'path': [], 'smt2': verify.smt2_of(hyps, goal)}
                 jobs.append((uid, meta[uid]['smt2'], [], tl, True))
+                if hyps:        # vacuity canary: contradictory hypotheses would make the lemma true for no reason
+                    canjobs.append(('lemma-canary::%s' % name, verify.smt2_of(list(hyps), z3.BoolVal(False)), [], 2, False))
             t_explore = time.time() - t0
             results = {}
             for r in _collect(pool.imap_unordered(verify.solve_one, jobs, chunksize=1), tl * 8 + 120, 'solving'):
@@ -352,7 +361,8 @@ class Report:
             return '(selftest: not written)'
         os.makedirs(d, exist_ok=True)
         p = os.path.join(d, '%s-%d.json' % (self.prop, n))
-        json.dump(payload, open(p, 'w'), indent=1, default=_json_default)
+        with open(p, 'w') as _fh:
+            json.dump(payload, _fh, indent=1, default=_json_default)
         return p
 
     def finish(self, known, wall, write_baseline=False):
@@ -511,7 +521,10 @@ class Report:
             sigs = dict(out.get('loopsig', {}))
             sigs.update({u: sg for u, sg in self.loopsigs.items() if sg})
             out['loopsig'] = sigs
-            json.dump(out, open(os.path.join(self.root, 'baseline', prop + '.json'), 'w'), indent=1, sort_keys=True)
+            _bp = os.path.join(self.root, 'baseline', prop + '.json')          # (written whole, then moved into place: other runs may be reading it)
+            with open(_bp + '.tmp%d' % os.getpid(), 'w') as _fh:
+                json.dump(out, _fh, indent=1, sort_keys=True)
+            os.replace(_bp + '.tmp%d' % os.getpid(), _bp)
 
         if not self.selftest:
             self._evidence(code, n_obl, n_dis, undecided, new_viol, wall, known)
@@ -577,4 +590,7 @@ class Report:
             'known_findings_listed': [f['clause'] for f in known],
         }
         os.makedirs(os.path.join(self.root, 'evidence'), exist_ok=True)
-        json.dump(ev, open(os.path.join(self.root, 'evidence', self.prop + '.json'), 'w'), indent=1, default=_json_default)
+        _ep = os.path.join(self.root, 'evidence', self.prop + '.json')
+        with open(_ep + '.tmp%d' % os.getpid(), 'w') as _fh:
+            json.dump(ev, _fh, indent=1, default=_json_default)
+        os.replace(_ep + '.tmp%d' % os.getpid(), _ep)
